@@ -169,4 +169,25 @@ example (tx : Fns.Transaction) : Fns.TransactionPool_is_acceptable tx true 10 5 
 example (tx : Fns.Transaction) : Fns.TransactionPool_is_acceptable tx false 10 5 3 50 60 50 = some () := by
   simp [Fns.TransactionPool_is_acceptable]
 
+
+/-! ## `Graph::new`: the size bound reached from `CuckatooContext::new_impl` before anything is verified -/
+
+/-- `Graph::new(max_edges, ..)` fails ("graph is to big to build") exactly when `max_edges >= u64::MAX / 2` -/
+theorem Graph_new_isNone (me ms ps : Nat) :
+    (Fns.Graph_new me ms ps).isNone = decide (me ≥ U64MAX / 2) := by
+  unfold Fns.Graph_new
+  by_cases h : me ≥ 18446744073709551615 / 2
+  · have : me ≥ U64MAX / 2 := h
+    simp [h, this]
+  · have : ¬ me ≥ U64MAX / 2 := h
+    simp [h, this]
+
+/-- … so for `max_edges = num_edges` of `CuckooParams::new(edge_bits, ..)` it is the model's `graphTooBig edge_bits` -/
+theorem Graph_new_tooBig (eb ms ps : Nat) :
+    (Fns.Graph_new (numEdges eb) ms ps).isNone = graphTooBig eb := by
+  rw [Graph_new_isNone]; rfl
+
+example : (Fns.Graph_new (numEdges 63) 4 42).isNone = true := by rw [Graph_new_tooBig]; decide
+example : (Fns.Graph_new (numEdges 31) 4 42).isNone = false := by rw [Graph_new_tooBig]; decide
+
 end GV.Props.XlateCtx
